@@ -24,6 +24,8 @@ type Program struct {
 	NondetRange map[string]bool
 	// InitPkgs lists package paths whose init() is executed (imports' inits skipped) on first global access.
 	InitPkgs map[string]bool
+	// RepoPrefix: import-path prefix of the repository under test (its packages' own init bodies are executed).
+	RepoPrefix string
 }
 
 // fnName caches ssa.Function.String(), which is expensive.
@@ -201,6 +203,31 @@ func (e *Exec) global(g *ssa.Global) *Object {
 	if g.Pkg != nil && e.P.InitPkgs[g.Pkg.Pkg.Path()] && !e.initDone[g.Pkg] {
 		e.initDone[g.Pkg] = true
 		e.runInit(g.Pkg)
+		if o, ok := e.globals[g]; ok {
+			return o
+		}
+	}
+	// packages of the repository under test: their own initialiser runs too (package-level maps, sentinel errors,
+	// caches a change may introduce); the metric vectors it creates are opaque handles named after their variable
+	if g.Pkg != nil && strings.HasPrefix(g.Pkg.Pkg.Path(), e.P.RepoPrefix) && e.P.RepoPrefix != "" && !strings.Contains(g.Pkg.Pkg.Path(), "/internal/verif") && !e.initDone[g.Pkg] {
+		e.initDone[g.Pkg] = true
+		e.runInit(g.Pkg)
+		for _, mem := range g.Pkg.Members {
+			mg, ok := mem.(*ssa.Global)
+			if !ok {
+				continue
+			}
+			o, ok := e.globals[mg]
+			if !ok {
+				continue
+			}
+			if p, ok := o.Val.(*Pointer); ok && !p.IsNil() {
+				if ov, ok := p.Obj.Val.(*OpaqueV); ok && ov.Tag == "prom:pending" {
+					ov.Tag = "global:" + mg.Pkg.Pkg.Path() + "." + mg.Name()
+					p.Obj.Note = ov.Tag
+				}
+			}
+		}
 		if o, ok := e.globals[g]; ok {
 			return o
 		}
